@@ -22,6 +22,52 @@ CHECKS = {
     technique="runtime monitor: independent RFC 8010 reference decoder/encoder (no code shared with ipp) judging the library's bytes over many fresh map instances",
     text="The bytes of to_bytes() for each generated message (T fresh instances per message, so the randomly keyed maps take different iteration orders) are decoded by an independent strict RFC 8010 decoder (exact lengths, registered body widths, separators with empty name and own tag, collection bracketing, unique names, exactly one end tag, operation group first), the decoded content is compared with the mirror of what was encoded, and a reference encoder given the observed attribute order must reproduce the bytes exactly. The evidence counts distinct attribute orders actually observed; a run in which the orders did not vary is inconclusive.",
     note="Trusted: the reference codec (ippref), written from RFC 8010 and anchored at start-up to hand-transcribed RFC example messages."),
+
+ "C02": dict(
+    level="exploration", design="2/C02",
+    technique="runtime monitoring with crash attribution: catch_unwind + child processes whose signal handler names the (case, phase) that aborted; logical-step hang oracles (reads past EOF, polls without wake-up); Miri/ASan layers",
+    text="The quantifier's input families are executed literally: every <=2-byte tail and a 1M-sample (thorough: all 2^24) of 3-byte tails after a valid header, the full tag x length x fill x truncation grid (also straight into IppValue::parse), all with-language inner-length pairs, every token sequence up to length 4 (thorough 5) over the 16-token alphabet, seeded grammar-aware mutations, and 14 structural bomb families up to 1 MiB with each phase (parse, display, debug, encode, traverse, clone+eq, drop) in its own process. Both parsers run on every input; any panic, abort, stack overflow, read loop past EOF or unproductive poll loop is a violation carrying the input. The recorded stack overflows of post-parse recursion on deeply nested collections are listed known findings (exact family+phase signatures); anything else still fails the check.",
+    note="8 MiB case-thread stack; hang decided on logical steps, wall clock only as watchdog (inconclusive). Inputs not executed are not covered."),
+ "C04": dict(
+    level="exploration", design="2/C04",
+    technique="runtime monitor: reference interpretation (independent RFC 8010 decoder + interp) vs parser result over grammar-generated wire trees and enumerated token sequences",
+    text="Wire-level message trees are generated from the RFC 8010 grammar (every value tag 0x10-0x4a, non-UTF-8 text, repeated/empty groups, messages not starting with the operation group, mixed sets, multi-valued members, sets of collections, boundary lengths), encoded by the reference encoder and parsed by the library; the result read through the public API must equal the reference interpretation. Every token sequence up to length 4 (thorough 6) that the reference decoder accepts is judged the same way, and bytes outside the tag ranges substituted at tag positions must yield exactly InvalidTag(b). Coverage floors (all 57 non-structural value tags, each listed form seen) make a thin run inconclusive.",
+    note="Trusted: ippref (reference codec), anchored to RFC example vectors. Inputs the reference decoder rejects are not judged."),
+ "C05": dict(
+    level="exploration", design="2/C05",
+    technique="runtime monitor: differential oracle blocking vs async parser under scripted delivery schedules driven by a manual executor (all compositions for short inputs, not-ready/deferred-wake injection)",
+    text="For a strided sample of the C02 hostile corpus and C04 well-formed trees the blocking parser's outcome (content incl. payload, or error kind incl. offending tag / I/O kind) is compared with the async parser's under: whole, 1-byte, uniform chunks, random compositions with 0-2 Pending results per boundary (immediate or deferred wake), and for a budgeted set of inputs of 9..16 (thorough 21) bytes all 2^(n-1) compositions, short ones additionally under 7 not-ready patterns. Deadlock and busy-loop are logical-step verdicts of the executor. Evidence reports schedules, polls, pendings and deferred wakes actually observed.",
+    note="Schedules are delivered by the harness's scripted AsyncRead; real reactors are covered by C11."),
+ "C06": dict(
+    level="exploration", design="2/C06",
+    technique="runtime monitor: invariant on the scripted source's read log (bytes delivered at return == offset of end-of-attributes tag + 1) plus differential result check across fragmentations",
+    text="Four entry points (blocking/async x parse/parse_parts) are run per (message, payload, schedule). The scripted source honours the full requested size in 'whole' mode, so any layer that reads ahead over-consumes and is seen in the log; other schedules go down to 1-byte reads, Interrupted before every read (blocking), Pending with immediate/deferred wake (async) and all 2^(n-1) compositions for short messages. Checked: position at return, the reader from parse_parts yields exactly the rest, payload byte-identical (up to MiBs, incl. payloads that are themselves IPP messages), result equal to the unfragmented parse.",
+    note="End-tag offset computed by the reference decoder. Trusted: scripted source and log."),
+ "C07": dict(
+    level="fault_enumeration", design="2/C07",
+    technique="runtime fault injection: exhaustive per-message enumeration of cut points and (offset, I/O error kind) faults on a scripted source, both parsers",
+    text="For each of 300 (thorough 20000) well-formed messages (9 B - 2 KiB of header+attributes, incl. builder requests) every cut point before the end tag and every (offset, kind) single fault over 8 error kinds is injected, under whole and fragmented delivery, into both parsers; a cut must give Err, a fault must give Err(IoError) of exactly the injected kind; Ok or panic is a violation. Enumeration is exhaustive per message, sampling is over messages.",
+    note="Faults are single (one per run). WouldBlock judged for the blocking reader only, as the property states."),
+ "C09": dict(
+    level="exploration", design="2/C09",
+    technique="runtime monitor: positional oracle on the reference decoder's reading of to_bytes(), each program rebuilt many times with fresh randomly keyed maps",
+    text="Every builder/constructor program of C10 (or a raw request/response) followed by 0..6 shuffled further additions (vocabulary incl. job-id, job-uri and the header attributes) is rebuilt 32 (thorough 256) times; in every instance the operation group must come first with attributes-charset 1st, attributes-natural-language 2nd, printer-uri or job-uri 3rd and job-id 4th (printer-uri + job-id). The run is inconclusive unless the order of the remaining attributes was actually seen to vary.",
+    note="printer-uri together with job-uri is not generated (undefined by RFC 8011)."),
+ "C10": dict(
+    level="exploration", design="2/C10",
+    technique="runtime monitor: reference-model oracle (per-operation reference request) vs the built request, in memory and as decoded from its bytes by the reference decoder",
+    text="Random builder programs over the 10 operations (builders and operation structs), with repeated setters, arbitrary UTF-8 arguments, boundary job ids, 0/1/n requested attributes, G5 target URIs and G1 job attribute values, are executed against the library and compared with a reference request (registry operation code, version 1.1, positive request-id, exactly the expected attributes with the stated syntaxes in the right group, last-wins for extras, payload bytes); plus the raw constructors over every registered operation and status.",
+    note="Reference canonical printer-uri comes from the harness's own URI splitter (C13's oracle)."),
+ "C13": dict(
+    level="exploration", design="2/C13",
+    technique="runtime monitor: component oracle with taint markers over an exhaustive URI component grid plus seeded random URIs",
+    text="Targets are assembled from known components (82944-point grid over scheme x host form x port x user-info x path x query, plus random), user-info and query carry markers; the canonical printer-uri from the helper and from all 9 URI-taking constructors is split by an independent splitter and compared component-wise, the markers must not occur anywhere in the request bytes, and canonicalisation must be idempotent.",
+    note="Targets http::Uri refuses are counted and skipped."),
+ "C14": dict(
+    level="exploration", design="2/C14",
+    technique="runtime monitor at a cfg-guarded hook (verif_transport_url): component oracle over the C13 grid plus random URIs",
+    text="The private mapping the clients use is reached through the add-only hook and compared component-wise with the reference mapping (ipp->http, ipps->https, 631 when no port, explicit port kept, everything else unchanged, http/https untouched) over the full grid and random URIs. The port-less ipps -> 443 mapping is a listed known finding with an exact signature; any other discrepancy fails the check.",
+    note="Hook: --cfg ancwrd1_ipp_rs_verif. Socket-level confirmation for explicit-port targets is part of C11."),
 }
 
 REASON_TODO = "check not built yet in this revision of /verif (planned; see DESIGN.md section 2)"
